@@ -48,7 +48,8 @@ def extra_conds():
             lambda: R.local_pref < 100, lambda: R.net_len == 24, lambda: R.family == 4, lambda: R.community.has("CRX"), lambda: R.rd.has("RD1", "RD2"),
             lambda: R.extcommunity_soo.has_any("SOO1"), lambda: R.match_v6("PL6B", or_longer=(None, 64)),
             # the same lists referred to in another order / with and without an or_longer override (names are derived from both)
-            lambda: R.community.has_any("C2", "C1"), lambda: R.match_v4("PL4B"), lambda: R.match_v4("PL4", or_longer=(24, 32)),
+            lambda: R.community.has_any("C2", "C1"), lambda: R.community.has_any("C1", "C2", "C1"), lambda: R.large_community.has_any("LG1", "LG2", "LG1"),
+            lambda: R.extcommunity_rt.has_any("RT1", "RT2", "RT1"), lambda: R.match_v4("PL4B"), lambda: R.match_v4("PL4", or_longer=(24, 32)),
             lambda: R.match_v6("PL6B"), lambda: R.large_community.has_any("LG2", "LG1"), lambda: R.extcommunity_rt.has_any("RT2", "RT1")]
 
 
@@ -183,13 +184,13 @@ def run(ctx):
     devs = {"huawei": genrun.Dev(E.hwview("Huawei CE6870", "VRP V200R001C00SPC700")), "arista": genrun.Dev(E.hwview("Arista DCS-7368", "EOS 4.29.9.1M")),
             "cumulus": genrun.Dev(E.hwview("PC", ""))}
 
-    def observe(tag, vendor, stmts):
-        """stmts: list of (cond builders, act builders, result)"""
+    def observe(tag, vendor, stmts, dupnum=False):
+        """stmts: list of (cond builders, act builders, result); dupnum: every statement gets the number 10"""
         routemaps = RouteMap()
 
         def policy(device, route):
             for n, (cs, as_, res) in enumerate(stmts):
-                with route(*[c() for c in cs], number=(n + 1) * 10) as rule:
+                with route(*[c() for c in cs], number=(10 if dupnum else (n + 1) * 10)) as rule:
                     for a in as_:
                         a(rule)
                     getattr(rule, res)()
@@ -197,11 +198,13 @@ def run(ctx):
         if vendor == "cumulus":
             gen, log = make_cumulus(routemaps, ents)
             rec = {"id": "%s-%s-%d" % (tag, vendor, len(recs)), "vendor": vendor, "raised": False, "aclError": False, "listError": False,
-                   "policyLines": [], "defLines": [], "recLines": [], "textLines": []}
+                   "policyLines": [], "defLines": [], "recLines": [], "textLines": [], "headers": []}
             try:
                 rows = [(r,) if isinstance(r, str) else tuple(r) for r in gen.generate_cumulus_rpl(devs["cumulus"])]
                 for r in rows:
                     words = " ".join(r).split()
+                    if words and words[0] == "route-map":
+                        rec["headers"].append(words)
                     if r and r[0] == " ":
                         rec["policyLines"].append(words)
                     elif words and words[0] not in ("route-map", "!"):
@@ -218,10 +221,11 @@ def run(ctx):
         gen, listgens, log = make_generators(vendor, routemaps, ents)
         dev = devs[vendor]
         rec = {"id": "%s-%s-%d" % (tag, vendor, len(recs)), "vendor": vendor, "raised": False, "aclError": False, "listError": False,
-               "policyLines": [], "defLines": [], "recLines": [], "textLines": []}
+               "policyLines": [], "defLines": [], "recLines": [], "textLines": [], "headers": []}
         try:
             text = gen(dev)
             rec["textLines"] = lex_out(text)
+            rec["headers"] = [l["w"] for l in rec["textLines"] if l["ind"] == 0 and l["w"][0] in ("route-map", "route-policy")]
             rec["recLines"] = list(log["lines"])
             rec["policyLines"] = [l["w"] for l in rec["textLines"] if l["ind"] > 0]
         except Exception as e:
@@ -267,6 +271,10 @@ def run(ctx):
                 continue
             for vendor in ("huawei", "arista", "cumulus"):
                 observe("pair", vendor, [([xconds[ci]], [], "allow"), ([xconds[cj]], [], "allow")])
+    # two statements of one policy under one number (a route-map entry is keyed by its number)
+    for k in range(120 if quick else 2000):
+        stmts = [(rnd.sample(xconds, rnd.randint(0, 2)), rnd.sample(xacts, rnd.randint(0, 1)), rnd.choice(["allow", "deny"])) for _s in range(2)]
+        observe("dup", ["huawei", "arista", "cumulus"][k % 3], stmts, dupnum=True)
     for _ in range(1500 if quick else 40000):
         stmts = []
         for _s in range(rnd.choice([1, 2, 2, 3])):
